@@ -62,9 +62,15 @@ func (w *respWriter) Header() http.Header         { return w.h }
 func (w *respWriter) WriteHeader(c int)           { w.status = c }
 func (w *respWriter) Write(b []byte) (int, error) { w.body = append(w.body, b...); return len(b), nil }
 
-func fetch(m *gohlslib.Muxer, path string) (string, int) {
+// status -1: the handler panicked (body = the panic text)
+func fetch(m *gohlslib.Muxer, path string) (body string, status int) {
 	u, _ := url.Parse("http://localhost/" + path)
 	w := &respWriter{h: make(http.Header)}
+	defer func() {
+		if p := recover(); p != nil {
+			body, status = fmt.Sprint(p), -1
+		}
+	}()
 	m.Handle(w, &http.Request{URL: u})
 	if w.status == 0 {
 		w.status = 200
@@ -137,7 +143,7 @@ type scenario struct {
 }
 
 type observation struct {
-	Kind      string   `json:"kind"` // sandwich | order
+	Kind      string   `json:"kind"` // sandwich | order | panic
 	StreamX   string   `json:"stream_x"`
 	StreamY   string   `json:"stream_y"`
 	X1        string   `json:"response_x1"`
@@ -232,8 +238,17 @@ func runScenario(sc scenario) (*runStats, []observation) {
 	wg.Add(1)
 	go func() {
 		defer wg.Done()
-		base := time.Date(2010, 1, 1, 1, 1, 1, 0, time.UTC)
 		signalled := false
+		defer func() {
+			if p := recover(); p != nil {
+				werr = fmt.Sprint("writer panicked: ", p)
+				if !signalled {
+					ready.Done()
+				}
+				stop.Store(true)
+			}
+		}()
+		base := time.Date(2010, 1, 1, 1, 1, 1, 0, time.UTC)
 		deadline := time.Now().Add(time.Duration(sc.Millis) * time.Millisecond)
 		for frame := 0; ; frame++ {
 			if frame%16 == 0 && time.Now().After(deadline) {
@@ -291,6 +306,18 @@ func runScenario(sc scenario) (*runStats, []observation) {
 				by, s2 := fetch(m, names[y])
 				bx2, s3 := fetch(m, names[x])
 				requests.Add(3)
+				if s1 == -1 || s2 == -1 || s3 == -1 {
+					// a playlist handler panicked while the writer was rotating: nothing well-formed is exposed
+					ob := observation{Kind: "panic", StreamX: names[x], StreamY: names[y], X1: bx1, Y: by, X2: bx2,
+						Rotations: before, Scenario: sc, Detail: "Muxer.Handle panicked on a media playlist request during concurrent writes"}
+					mu.Lock()
+					if len(found) < 4 {
+						found = append(found, ob)
+					}
+					mu.Unlock()
+					stop.Store(true)
+					continue
+				}
 				if s1 != 200 || s2 != 200 || s3 != 200 {
 					continue
 				}
